@@ -381,10 +381,48 @@ func TestC10(t *testing.T) {
 	R.State(len(seen))
 	R.Set("multisets", len(seen))
 
+	rerender(R, p)
 	if ev.Thorough() {
 		scale(R)
 	}
 	R.Finish(t)
+}
+
+// rerender: periodic reporting renders ONE reporter again and again while
+// results keep arriving. For every sequence of length <= 3 the text and JSON
+// reporters are created once, rendered after every Add+Close, and the last
+// rendering must be what a fresh reporter prints for the same Metrics.
+func rerender(R *ev.Run, p []vegeta.Result) {
+	ev.Seqs(len(p), 1, 3, func(seq []int) {
+		m := &vegeta.Metrics{}
+		reps := map[string]vegeta.Reporter{"text": vegeta.NewTextReporter(m), "json": vegeta.NewJSONReporter(m)}
+		last := map[string]string{}
+		for _, s := range seq {
+			r := p[s]
+			m.Add(&r)
+			m.Close()
+			for name, rep := range reps {
+				var b bytes.Buffer
+				if err := rep.Report(&b); err != nil {
+					R.Violation("report:"+name+":rerender:error", err.Error())
+					return
+				}
+				last[name] = b.String()
+			}
+		}
+		R.Eval(1)
+		R.Trans(2 * len(seq))
+		if len(seq) > 1 {
+			R.Distinct(fmt.Sprint("rerender", seq))
+		}
+		for name, fresh := range map[string]vegeta.Reporter{"text": vegeta.NewTextReporter(m), "json": vegeta.NewJSONReporter(m)} {
+			var b bytes.Buffer
+			fresh.Report(&b)
+			if b.String() != last[name] {
+				R.Violation("report:"+name+":rendering-depends-on-earlier-renderings", map[string]any{"history": describe(p, seq, 1<<len(seq)-1), "rendering_of_the_reused_reporter": last[name], "fresh_reporter": b.String()})
+			}
+		}
+	})
 }
 
 func popcount(x int) int {
